@@ -32,7 +32,7 @@ MIX = {"create": 4, "write": 3, "delete": 2, "mkdir": 2, "rmdir": 1}
 
 
 def budget(tier):
-    return {"quick": {"runs": 1500, "wall": 200}, "thorough": {"runs": 60000, "wall": 1700}}[tier]
+    return {"quick": {"runs": 1500, "wall": 200}, "thorough": {"runs": 18000, "wall": 900}}[tier]
 
 
 def _run(case):
